@@ -35,7 +35,8 @@ def ensure_streams(app: appboot.App):
     # syn2: 90 kHz video + 48 kHz audio a little *longer* than the video (negative drift), sidx+styp
     v = mp4synth.make_track("video", 90000, [180000, 180000, 180000, 90000], samples_per_segment=5,
                             seed=21, track_id=1, with_sidx=True)
-    a = mp4synth.make_track("audio", 48000, [96256, 96256, 96256, 48128], samples_per_segment=94,
+    # (the audio track has no tfdt boxes and irregular durations: the server must synthesise exact decode times)
+    a = mp4synth.make_track("audio", 48000, [96256, 48128, 144384, 48128], samples_per_segment=94,
                             seed=22, track_id=2, with_tfdt=False)
     mp4synth.register(app, "syn2", "Synthetic 90k", {"syn2_v1": v, "syn2_a1": a}, timing_from="syn2_v1")
     # syn3: fragments numbered from 7 (start_number != 1), constant durations
